@@ -109,8 +109,17 @@ let body lines =
             | ["cctor"; r; s] -> VCopyCtor (nat (ios r), nat (ios s))
             | ["mctor"; r; s] -> VMoveCtor (nat (ios r), nat (ios s))
             | ["swap"; r; s] -> VSwap (nat (ios r), nat (ios s))
+            | ["detach"; _] -> VClear (nat 0)      (* placeholder, handled below *)
             | _ -> raise (Stop ("badop " ^ l)) in
-          let ((st1, out), evs) = get (vstep esz veq !st o) in
+          let ((st1, out), evs) =
+            (match words l with
+             | ["detach"; r] ->
+               (* detach() + release of the buffer by the caller = what the destructor does, then an empty vector
+                  (size 0, capacity 0, null buffer) on the same allocator instance *)
+               let r = nat (ios r) in
+               let evs = get (destruct (!st.als r) (!st.regs r)) in
+               (({ regs = set_reg !st.regs r vec_empty; als = !st.als; nextb = !st.nextb }, OUnit), evs)
+             | _ -> get (vstep esz veq !st o)) in
           st := st1;
           print_string (show_out out ^ "\n"); dump (); print_evs tracked evs) ops;
         print_string "fin\n"; print_evs tracked (get (vfinish !st))
@@ -227,9 +236,18 @@ let body lines =
             | ["popf"; l] -> if members (ios l) = [] then raise (Stop "pre"); IPopFront (nat (ios l))
             | ["popb"; l] -> if members (ios l) = [] then raise (Stop "pre"); IPopBack (nat (ios l))
             | ["clear"; l] -> IClear (nat (ios l))
+            | ["filter"; _; _] -> IClear (nat 0)    (* placeholder, handled below *)
             | ["splice"; l; m] -> if ios l = ios m then raise (Stop "pre"); ISplice (nat (ios l), nat (ios m))
             | _ -> raise (Stop ("badop " ^ l)) in
-          let (st1, out) = get (istep ifuel !st o) in
+          let (st1, out) =
+            (match words l with
+             | ["filter"; li; p] ->
+               (* erase(it++) over the list: the members whose id has parity p are erased, in list order *)
+               let li = ios li and p = (ios p) land 1 in
+               let victims = List.filter (fun x -> x land 1 = p) (members li) in
+               let s1 = List.fold_left (fun s x -> fst (get (istep ifuel s (IErase (nat li, nat x))))) !st victims in
+               (s1, OUnit)
+             | _ -> get (istep ifuel !st o)) in
           st := st1;
           print_string (show_out out ^ "\n"); dump ()) ops
       | _ -> raise (Stop "badtype"))
